@@ -271,6 +271,28 @@ def main():
             else:
                 known_hits.pop(k["tag"], None)
 
+    # repaired defects: their witnesses are replayed on every run; a fixed entry suppresses nothing
+    for k in known:
+        if k.get("status") == "fixed" and a.prop in k["properties"] and k.get("witness") is not None:
+            w = dict(k["witness"])
+            if w.get("files") is not None:
+                w["root"] = common.SCRATCH_BASE + ["fx_%s_%d" % (a.prop, os.getpid())]
+            i = common.run_impl_case(w)
+            exp = k["expect"]
+            bad = None
+            if i["status"] != exp["status"]:
+                bad = "status %s (expected %s)" % (i["status"], exp["status"])
+            elif "err" in exp and i.get("err") != exp["err"]:
+                bad = "error %s (expected %s)" % (i.get("err"), exp["err"])
+            elif "out" in exp and [common.dec(l) if isinstance(l, list) else None for l in i.get("out", [])] != exp["out"]:
+                bad = "output %r (expected %r)" % ([common.dec(l) for l in i.get("out", []) if isinstance(l, list)], exp["out"])
+            elif "nwarnings" in exp and len(i.get("warnings", [])) != exp["nwarnings"]:
+                bad = "%d warnings (expected %d)" % (len(i.get("warnings", [])), exp["nwarnings"])
+            elif "trace_lines" in exp and [fr[1][0] for fr in (i.get("trace") or [])] != exp["trace_lines"]:
+                bad = "trace %r" % (i.get("trace"),)
+            if bad:
+                violations.append((w, i, "regression:" + k["id"], "the defect repaired by %s is back (%s): %s" % (k["commit"], k["what"], bad)))
+
     os.makedirs(os.path.join(VERIF, "replay"), exist_ok=True)
     for old in os.listdir(os.path.join(VERIF, "replay")):
         if old.startswith(a.prop + "-"):
